@@ -408,7 +408,7 @@ def replay(rec):
         q = QBytesTensor(q.qtype, q.axis, d.size(), d.stride(), d, q._scale)
     o = None
     if "o" in inp:
-        o = rebuild(inp["state"], dt, inp["o"]) if "scale" in inp["o"] else api.dec_tensor(inp["o"]["data"])
+        o = rebuild("pt8b" if op.second == "per-tensor-3d" else inp["state"], dt, inp["o"]) if "scale" in inp["o"] else api.dec_tensor(inp["o"]["data"])
         if op.second == "same-scale":
             from optimum.quanto.tensor import QBytesTensor
 
